@@ -38,6 +38,7 @@ class Gen:
         self.fam = fam
         self.rng = rng
         self.tv_bind = {}
+        self._cls_stack = []
 
     def value(self, t, depth=3):
         rng = self.rng
@@ -182,6 +183,7 @@ class Gen:
         saved = dict(self.tv_bind)
         if type_args is not None and df.get("generic"):
             self.tv_bind.update(dict(zip(df["generic"], type_args)))
+        self._cls_stack.append(name)
         try:
             for f in self.fam.dc_fields(name):
                 if f.get("init") is False:
@@ -191,6 +193,7 @@ class Gen:
                 kw[f["n"]] = self.value(f["t"], d - 1)
         finally:
             self.tv_bind = saved
+            self._cls_stack.pop()
         return cls(**kw)
 
     def _v_gdc(self, t, d):
@@ -212,7 +215,7 @@ class Gen:
         return self.value(t[2], d)
 
     def _v_self(self, t, d):
-        raise NotImplementedError("Self handled by family-specific generators")
+        return self.instance(self._cls_stack[-1], d - 1)
 
     # ------------------------------------------------------------ containers
     def _n(self, d):
@@ -220,7 +223,8 @@ class Gen:
 
     def _v_seq(self, t, d):
         kind = tast.SEQ_SPELLINGS[t[1]][1]
-        items = [self.value(t[2], d - 1) for _ in range(self._n(d))]
+        n = 0 if (tast.strip(t[2]) == ("self",) and d <= 1) else self._n(d)
+        items = [self.value(t[2], d - 1) for _ in range(n)]
         if kind == "list":
             return items
         if kind == "deque":
@@ -266,7 +270,7 @@ class Gen:
 
     # ------------------------------------------------------------ special
     def _v_opt(self, t, d):
-        if self.rng.random() < 0.3:
+        if self.rng.random() < 0.3 or (tast.strip(t[1]) == ("self",) and d <= 1):
             return None
         return self.value(t[1], d)
 
